@@ -166,7 +166,13 @@ func ruleHexString(c *core.Ctx, rule, readerPkg string) {
 		o.Count(256)
 		o.Fact("%s digit set %s", rd.Key, digits.String())
 		if !digits.Equal(want) {
-			o.Fail("%s treats %s as hex digits, want exactly [0-9A-Fa-f]", rd.Key, digits.String())
+			if digits.Len() == 256 {
+				// every byte "can" reach the digit path: the classification of the byte was
+				// not evaluated (a table built by calls, a helper that is not followed)
+				o.Unrec("%s: which bytes count as hex digits is not decided (the classification of the byte is not evaluated)", rd.Key)
+			} else {
+				o.Fail("%s treats %s as hex digits, want exactly [0-9A-Fa-f]", rd.Key, digits.String())
+			}
 		}
 	})
 }
